@@ -537,6 +537,68 @@ Proof. intros H Hn. apply RO_OW_null. apply flush_OW; [now apply RO_OW_null|exac
 Theorem spawn_all_cannot_fail w : RO w -> exists w', spawn_all w = ROk tt w' /\ RO w' /\ Quiet w'.
 Proof. intros H. destruct (spawn_all_OW KEY_NULL w (proj1 (RO_OW_null w) H)) as (w' & E & H' & Q). exists w'. split; [exact E|]. split; [now apply RO_OW_null|exact Q]. Qed.
 
+(* ---------- World::spawn, end to end ---------- *)
+Section Top.
+Variable beh : hinfo -> logent -> N -> script.
+Variable k : key.
+Definition OWr {A} (r : res A) : Prop := ~ ubf (res_fail r) -> OW k (res_world r).
+Lemma rbind_OWr {A B} (r : res A) (f : A -> world -> res B) : OWr r -> (forall a w1, OW k w1 -> OWr (f a w1)) -> OWr (rbind r f).
+Proof. destruct r as [a w1|e w1]; cbn [rbind]; [intros H Hf; apply Hf; apply H; cbn; tauto|intros H _; exact H]. Qed.
+
+Lemma gev_OW fuel : forall tag w, OW k w -> OWr (add_global_event beh fuel tag w) /\ forall ev, OWr (send_global beh fuel tag ev w).
+Proof.
+  induction fuel as [|f IH]; intros tag w HP; [split; [|intros ev]; intros _; exact HP|].
+  assert (Hadd : OWr (add_global_event beh (S f) tag w)).
+  { rewrite add_global_event_S. destruct (alookup tag (w_gby w)); [intros _; exact HP|].
+    destruct (insert_with (fun _ => mkE tag (gkind tag)) (w_gev w)) as [[k0 m]|]; [|intros _; exact HP]. cbn zeta.
+    set (w2 := set_glists _ _). assert (HP2 : OW k w2) by (eapply OW_ro; [|exact HP]; reflexivity).
+    apply rbind_OWr; [|intros ? ? X _; exact X]. apply (proj2 (IH G_ADDGE w2 HP2)). }
+  split; [exact Hadd|]. intros ev. rewrite send_global_S. destruct (IH tag w HP) as [Ka _].
+  destruct (add_global_event beh f tag w) as [k0 w1|e w1]; unfold OWr in *; cbn [res_world res_fail] in *.
+  - apply flush_OW. destruct (10 <? tag); [eapply OW_ro; [|apply Ka; cbn; tauto]; reflexivity|apply Ka; cbn; tauto].
+  - intros Hn. eapply OW_ro; [apply (r_ev_drop ro); fr|now apply Ka].
+Qed.
+End Top.
+
+Lemma reserve_not_null w id w' : SmInv (w_ents w) -> reserve w = ROk id w' -> id <> KEY_NULL.
+Proof.
+  intros (_ & _ & Hb) H. unfold reserve, nki_next in H. destruct (sget (slots (w_ents w)) (w_rcur w)) as [s|] eqn:Es.
+  - destruct (N.even (gen s)); [|discriminate]. inversion H; subst. apply sget_lt in Es. unfold KEY_NULL. intros X. inversion X; try lia.
+  - destruct (w_rcur w <? U32MAX) eqn:El; [|discriminate]. inversion H; subst. apply N.ltb_lt in El. unfold KEY_NULL. intros X. inversion X; try lia.
+Qed.
+
+(* World::spawn on a world that satisfies the plain invariant: the id it returns is owed when the call returns; when
+   nothing is reserved then (c03_no_reservation_pending_at_a_quiescent_point) it is the id of a live entity, or of
+   one that a handler despawned during the call - dead for good *)
+Theorem world_spawn_id_is_created beh w id w' : RO w -> op_spawn beh w = ROk id w' ->
+  OW id w' /\ (w_rcnt w' = 0 -> sm_get id (w_ents w') <> None \/ Dead (w_ents w') id).
+Proof.
+  intros [A B] H. unfold op_spawn in H. destruct (reserve w) as [id0 w1|f w1] eqn:Er; cbn [rbind] in H; [|discriminate].
+  pose proof (reserved_id_is_owed w id0 w1 A B Er) as HO. pose proof (reserve_not_null w id0 w1 A Er) as Hnn.
+  pose proof (proj2 (gev_OW beh id0 RFUEL G_SPAWN w1 HO) (mkEv 0 0 id0)) as HS. unfold OWr in HS.
+  destruct (send_global beh RFUEL G_SPAWN (mkEv 0 0 id0) w1) as [[] w2|f w2]; cbn [rbind res_world res_fail] in *; [|discriminate].
+  inversion H; subst id w'. clear H.
+  assert (HF : OW id0 (push_known w2 id0)) by (eapply OW_ro; [apply (r_push_known ro); fr|apply HS; cbn; tauto]).
+  split; [exact HF|]. intros Hz. destruct (OW_quiet _ _ HF Hz) as [N0|C]; [contradiction|exact C].
+Qed.
+
+(* ... for every reachable world: after ANY history of calls (under the hypotheses of Quiet.reachable_Quiet) the world
+   satisfies the plain invariant, so the statement above applies to the next World::spawn *)
+Theorem reachable_RO beh fuel p ops : NoTakeSpawn beh -> no_exhaustion beh ops (world0 fuel p) ->
+  let w := fold_left (run_top_all beh) ops (world0 fuel p) in elen w < U32MAX -> RO w.
+Proof.
+  intros Hnt Hne w Hl. split.
+  { pose proof (reachable_ZI beh fuel p ops) as [[HD _] _]. destruct (DI_parts _ HD) as (HF & _). destruct HF as [[HW _] _].
+    destruct HW as ((Hsm & _) & _). exact Hsm. }
+  exists []. apply Quiet_ReserveInv. exact (reachable_Quiet beh fuel p ops Hnt Hne Hl).
+Qed.
+Theorem reachable_world_spawn_id_is_created beh fuel p ops id w' : NoTakeSpawn beh -> no_exhaustion beh ops (world0 fuel p) ->
+  let w := fold_left (run_top_all beh) ops (world0 fuel p) in elen w < U32MAX ->
+  op_spawn beh w = ROk id w' -> w_rcnt w' = 0 -> sm_get id (w_ents w') <> None \/ Dead (w_ents w') id.
+Proof.
+  intros Hnt Hne w Hl Hs Hz. exact (proj2 (world_spawn_id_is_created beh w id w' (reachable_RO beh fuel p ops Hnt Hne Hl) Hs) Hz).
+Qed.
+
 (* not vacuous, and "from the moment its Spawn event has been delivered", not before: on a map with one live
    entity and one recycled slot, the two ids NextKeyIter promises are neither live nor dead; after the two
    insertions both are live *)
